@@ -150,12 +150,6 @@ def TyDef.isFloatKind (d : TyDef) : Bool :=
   | .basic .f32 | .basic .f64 => true
   | _ => false
 
-/-- `isProtoSlice` in codec.go: the codec, or what it points to, is a ProtoSliceWrapper. -/
-def Ty.isProtoSlice : Ty → Bool
-  | .pslice _ => true
-  | .ptr t => t.isProtoSlice
-  | _ => false
-
 /-- which wrapper a slice of `sub` gets. `notFloat`: the element *type* is not of
 kind float32/float64 — a pointer to a float or a nullable float, whose codec has
 a fixed wire type but whose elements can be absent: rejected. -/
